@@ -66,6 +66,21 @@ class Known:
                   f'(seen in {n} executions)')
 
 
+def _plain(x, depth: int = 0):
+    """a JSON-able, bounded rendering of an execution's identity"""
+    if isinstance(x, (bytes, bytearray)):
+        return bytes(x[:200]).decode('latin1')
+    if isinstance(x, str):
+        return x[:300]
+    if isinstance(x, (int, float, bool)) or x is None:
+        return x
+    if isinstance(x, dict) and depth < 4:
+        return {str(k)[:80]: _plain(v, depth + 1) for k, v in list(x.items())[:20]}
+    if isinstance(x, (list, tuple, set, frozenset)) and depth < 4:
+        return [_plain(v, depth + 1) for v in list(x)[:20]]
+    return repr(x)[:300]
+
+
 class Run:
     """One invocation of one check."""
 
@@ -87,6 +102,7 @@ class Run:
         self.drift: list = []
         self.notes: dict = {}
         self._nontrivial: set[str] = set()
+        self._first_execs: list = []
         self.machinery_errors: list[str] = []
 
     # -- accounting ----------------------------------------------------------
@@ -106,6 +122,12 @@ class Run:
         self.cov['evaluations'] += 1
         if validated:
             self.cov['traces_validated_against_impl'] += 1
+        # what was executed, for the evidence: the first executions' identities (used as
+        # samples when the check records none of its own)
+        if signature is not None and len(self._first_execs) < 3 and (
+                nontrivial or not self._first_execs):
+            self._first_execs.append({'execution': _plain(signature), 'nontrivial': nontrivial,
+                                      'validated': validated})
         if nontrivial and signature is not None:
             self._nontrivial.add(signature if isinstance(signature, str)
                                  else digest(signature))
@@ -141,6 +163,8 @@ class Run:
 
     def finish(self) -> int:
         self.cov['distinct_nontrivial'] = len(self._nontrivial)
+        if not self.cov['samples']:
+            self.cov['samples'] = list(self._first_execs)
         ev = {
             'property_id': self.prop,
             'tier': self.tier,
